@@ -210,12 +210,25 @@ func AssignGroups(root *Node, o Opts) int {
 			}
 		}
 	}
+	byName := map[string]int{}
 	for _, c := range caps {
 		if c.Name != "" {
 			c.Group = next
 			next++
+			if _, dup := byName[c.Name]; !dup {
+				byName[c.Name] = c.Group
+			}
 		}
 	}
+	// a reference printed by name designates whatever number its target has NOW (an AST built from a random
+	// part plus hand-made groups is renumbered after the reference was resolved)
+	root.Walk(func(n *Node) {
+		if (n.Kind == KRef || n.Kind == KCondRef) && n.Name != "" {
+			if g, ok := byName[n.Name]; ok {
+				n.Group = g
+			}
+		}
+	})
 	return next - 1
 }
 
